@@ -132,10 +132,10 @@ PROPS["C20"] = {
 
 PROPS["C13"] = {
     "level": "model_checking",
-    "claim": "complete enumeration of size 0..80 and 256..272 (thorough: 0..272 and 1024..1040) x destination alignment 0..7 x source alignment 0..7 x operand count 0..20 x all 256 (16) field constants x 2 content patterns (plus 16 rotations carrying every byte value at every position class) for the seven kernels; result compared with the byte-wise definition; reads and writes beyond size trapped by AddressSanitizer (operands end at the end of their heap block) and by canaries",
+    "claim": "complete enumeration of size 0..80 and 256..272 (thorough: 0..272 and 1024..1040) x destination alignment 0..7 x source alignment 0..7 x operand count 0..20 x all 256 (16) field constants x 2 content patterns (plus 16 rotations carrying every byte value at every position class) for the seven kernels; plus long symbols (96..70001 bytes: 2^e-1, 2^e, 2^e+1 for e = 9..16 and values between; thorough up to 2^20) x 8 alignment pairs x operand counts {0..5,7,8,9,15,16,17,20} x 7 constants, and operand counts 21..40, 63..65, 127..129, 255..257, 300 on 10 short sizes; result compared with the byte-wise definition (content patterns not periodic in the offset); reads and writes beyond size trapped by AddressSanitizer (operands end at the end of their heap block) and by canaries",
     "technique": "exhaustive enumeration of a bounded input space (size x alignment x operand count x constant) on the real kernels against a byte-wise reference",
     "rule": "one case = (kernel, size, dst alignment, src alignment, operand count, constant, pattern); states = sizes, transitions = kernel calls compared",
-    "bounds": {"quick": "sizes 0..80,256..272; counts 0..20; alignments 8x8; constants all", "thorough": "sizes 0..272,1024..1040 (reduced constant/alignment sets above 300)"},
+    "bounds": {"quick": "sizes 0..80,256..272; counts 0..20; alignments 8x8; constants all; 43 long sizes up to 70001 and 30 large operand counts up to 300 on reduced alignment/constant sets", "thorough": "sizes 0..272,1024..1040 (reduced constant/alignment sets above 300); 59 long sizes up to 2^20"},
     "assumptions": ["reference multiplication gfr_mul (engine/ref.c); table correctness itself is C14", "reads before the start of an operand inside its alignment padding are not observable"],
     "runs": [{"name": "kernel-asan", "src": "h_kernel.c", "variant": "asan", "exclude": RS28_TU},
              {"name": "kernel-plain", "src": "h_kernel.c", "variant": "plain", "exclude": RS28_TU}],
